@@ -711,3 +711,20 @@ func (r *Run) ExpectMapEntry(fn *ssa.Function, key, mapGlob, keyDesc, valGlob st
 		r.Fail(key, r.FnPos(fn), fmt.Sprintf("no map update %s[%s] in %s", mapGlob, keyDesc, FuncName(fn)))
 	}
 }
+
+// NilArgsRule: the "never panics" clause, structural part shared by several
+// properties — within the given packages no call passes a nil pointer constant
+// to a parameter that the callee (or any module implementation of the invoked
+// interface method) dereferences on a path where it is nil.
+func (r *Run) NilArgsRule(rule string, pkgs ...string) {
+	r.Rule(rule)
+	in := map[string]bool{}
+	for _, p := range pkgs {
+		in[p] = true
+	}
+	n := r.NilArgs(func(fn *ssa.Function) bool {
+		pk := fnPkg(fn)
+		return pk != nil && in[ShortPkg(pk.Path())]
+	})
+	r.Pass("nil-arg:sites", "-", fmt.Sprintf("%d call sites passing a nil pointer constant inspected in %v", n, pkgs))
+}
